@@ -56,10 +56,11 @@ def sdl():
             args.append(f"  x{s}{i}(inp: I{s}{i}): Int")
     tf.append("  q: Q")
     tf.append("  m: M")
+    tf.append("  r: R")
     tf.append("  ms: [M!]")
     args.append("  up(f: Upload!, dt: DT, inp: ISDT): Int")
     ins.append("input ISDT { dt: DT, s: S }")
-    return ("scalar B\nscalar P\nscalar S\nscalar DT\nscalar U\nscalar Q\nscalar M\nscalar Upload\n"
+    return ("scalar B\nscalar P\nscalar S\nscalar DT\nscalar U\nscalar Q\nscalar M\nscalar R\nscalar Upload\n"
             "interface Animal { id: ID! }\ntype Cat implements Animal { id: ID! born: P seen: [B!] }\ntype Dog implements Animal { id: ID! born: P }\ntype Fish implements Animal { id: ID! }\n"
             "union Pet = Cat | Dog\n"
             "type Query {\n  t: Obj!\n  zoo: [Animal!]!\n  zooOpt: [Animal]\n  star: Animal\n  pets: [[Pet!]]!\n" + "\n".join(args) + "\n}\n"
@@ -75,6 +76,7 @@ def ops():
             out.append(f"query X{s}{i}($inp: I{s}{i}) {{ x{s}{i}(inp: $inp) }}")
     # Q has the same Python type as P but its own parse function: both occur in one operation and in one fragment
     out.append("query RM { t { m ms } }")
+    out.append("query RR { t { r rP0 } }")
     out.append("query Up($f: Upload!, $dt: DT, $inp: ISDT) { up(f: $f, dt: $dt, inp: $inp) }")
     sel = "{ __typename id ... on Cat { born seen } ... on Dog { born } }"
     out.append(f"query Zoo {{ zoo {sel} zooOpt {sel} star {sel} pets {{ __typename ... on Cat {{ born }} ... on Dog {{ born }} }} }}")
@@ -86,9 +88,12 @@ CONFIG = {"scalars": {"B": {"type": ".scal.Code", "parse": ".scal.parse_b", "ser
                       "P": {"type": "str", "parse": ".scal.parse_p"},
                       "Q": {"type": "str", "parse": ".scal.parse_q"},
                       "M": {"type": ".scal.Money", "parse": ".scal.Money"},
+                      # R's parse function has the same NAME as P's but lives in another module
+                      "R": {"type": "str", "parse": ".scal2.parse_p"},
                       "S": {"type": "str", "serialize": ".scal.ser_s"},
                       "DT": {"type": "datetime.datetime"}},
-          "files_to_include": ["scal.py"], "target_package_name": "p07", "async_client": False}
+          "files_to_include": ["scal.py", "scal2.py"], "target_package_name": "p07", "async_client": False}
+SCAL2 = "def parse_p(v):\n    return 'r:' + str(v)\n"
 
 SETUP_ERROR = ""
 PKG = SC = None
@@ -96,7 +101,7 @@ META = {}
 try:
     with opened_auditwall():
         _BASE = tempfile.mkdtemp(prefix="vh07_", dir="/tmp")
-        _r = gen.generate({"schema": sdl(), "queries": ops(), "config": CONFIG, "files": {"scal.py": SCAL}})
+        _r = gen.generate({"schema": sdl(), "queries": ops(), "config": CONFIG, "files": {"scal.py": SCAL, "scal2.py": SCAL2}})
         if not _r["ok"]:
             raise RuntimeError(f"generation failed: {_r['exc_type']}: {_r['exc_msg']}")
         os.makedirs(os.path.join(_BASE, "p07"))
@@ -374,6 +379,32 @@ def check_parse_is_type(which: int) -> bool:
             ok, _ = parse_is_type_case(w)
         except Exception:
             ok = False
+    return ok
+
+
+def same_name_case():
+    """two scalars whose parse functions have the same name in different modules: each value goes through ITS scalar's function"""
+    del SC.CALLS[:]
+    Model = getattr(PKG, META["RR"].model)
+    obj = Model.model_validate({"t": {"r": "x", "rP0": "y"}})
+    return obj.t.r == "r:x" and obj.t.r_p_0 == "p:y", f"same-name: r={obj.t.r!r} rP0={obj.t.r_p_0!r}"
+
+
+def check_same_named_functions(x: bool) -> bool:
+    """
+    post: _
+    """
+    if SETUP_ERROR:
+        return False
+    with NoTracing():
+        try:
+            ok, detail = same_name_case()
+        except Exception:
+            ok, detail = False, "exception"
+        listed = (not ok) and ("r='p:x'" in detail or "rP0='r:y'" in detail)
+    if listed:
+        # the later `from .scal2 import parse_p` rebinds the name the earlier scalar's annotation refers to
+        return known("C07-same-named-functions-collide")
     return ok
 
 
